@@ -828,6 +828,12 @@ class SQLTranslator(ASTTranslator):
             subquery_ast = [ 'SELECT', [ 'ALL' ] + inner_expr, from_ast ]
             if translator.conditions:
                 subquery_ast.append([ 'WHERE' ] + translator.conditions)
+            if translator.groupby_monads:  # the grouped query selects fewer rows than its FROM/WHERE part
+                group_by = [ 'GROUP_BY' ]
+                for m in translator.groupby_monads: group_by.extend(m.getsql())
+                subquery_ast.append(group_by)
+                if translator.having_conditions:
+                    subquery_ast.append([ 'HAVING' ] + translator.having_conditions)
             if limited:
                 if translator.dialect == 'MySQL': throw(NotImplementedError,
                     'Bulk delete over a query with limit/offset is not supported in MySQL')
